@@ -250,7 +250,7 @@ theorem foldAs_spec {s : St} :
 
 theorem digit_val : ∀ d, d < 10 → (digitChar d).toNat = 48 + d := by decide
 
-theorem digit_ne_dash : ∀ d, d < 10 → digitChar d ≠ '-' := by decide
+theorem digit_ne_dash : ∀ d, d < 10 → digitChar d ≠ Consts.C20.sepChar := by decide
 
 def dval (a : Nat) (c : Char) : Nat := a * 10 + (c.toNat - 48)
 
@@ -279,7 +279,7 @@ theorem dec_inj {a b : Nat} (h : dec a = dec b) : a = b := by
   simp only [List.foldl_nil] at ha hb
   omega
 
-theorem decAux_nodash : ∀ (fuel n : Nat) (acc : Str), '-' ∉ acc → '-' ∉ decAux fuel n acc := by
+theorem decAux_nodash : ∀ (fuel n : Nat) (acc : Str), Consts.C20.sepChar ∉ acc → Consts.C20.sepChar ∉ decAux fuel n acc := by
   intro fuel
   induction fuel with
   | zero => intro n acc h; exact h
@@ -298,7 +298,7 @@ theorem decAux_nodash : ∀ (fuel n : Nat) (acc : Str), '-' ∉ acc → '-' ∉ 
       · exact digit_ne_dash (n % 10) (Nat.mod_lt _ (by omega)) hm.symm
       · exact h hm
 
-theorem split_last_dash : ∀ (a b x y : Str), a ++ '-' :: x = b ++ '-' :: y → '-' ∉ x → '-' ∉ y → a = b ∧ x = y := by
+theorem split_last_dash (c : Char) : ∀ (a b x y : Str), a ++ c :: x = b ++ c :: y → c ∉ x → c ∉ y → a = b ∧ x = y := by
   intro a
   induction a with
   | nil =>
@@ -321,7 +321,7 @@ theorem split_last_dash : ∀ (a b x y : Str), a ++ '-' :: x = b ++ '-' :: y →
 
 theorem numbered_inj {a b : Str} {i j : Nat} (h : numbered a i = numbered b j) : a = b ∧ i = j := by
   unfold numbered at h
-  obtain ⟨r1, r2⟩ := split_last_dash a b _ _ h (decAux_nodash _ _ [] (by simp)) (decAux_nodash _ _ [] (by simp))
+  obtain ⟨r1, r2⟩ := split_last_dash Consts.C20.sepChar a b _ _ h (decAux_nodash _ _ [] (by simp)) (decAux_nodash _ _ [] (by simp))
   exact ⟨r1, by have := dec_inj r2; omega⟩
 
 /-! ### the names after `sanitize` -/
